@@ -204,7 +204,7 @@ fn judge_tolmap(case: &Case, l: &mut Local) {
     let dom = DiscreteDomain::try_from(bps.clone()).unwrap();
     let map = DiscreteDomainTolMap::try_new(dom.clone(), zones.clone()).unwrap();
     l.check("tolerance map rejects mismatched lengths", "", DiscreteDomainTolMap::try_new(dom.clone(), zones[..zones.len() - 1].to_vec()).is_err(), mk, String::new);
-    let mut qs: Vec<f64> = vec![-1.0, 5.0];
+    let mut qs: Vec<f64> = vec![-1.0, 5.0, -0.0, 0.0];
     for b in bps.iter() {
         qs.push(*b);
         qs.push(b.next_up());
